@@ -4,7 +4,7 @@ while (mostly) passing the 96 unit tests. Each: (id, property, file, old, new). 
 M = [
  # C01 / C14: quote.py
  ("m01-unsafe-path-slash", "C01", "ural/quote.py", 'UNSAFE_FOR_PATH = b" %/?#"', 'UNSAFE_FOR_PATH = b" %?#"'),
- ("m02-unsafe-auth-at", "C01", "ural/quote.py", 'UNSAFE_FOR_AUTH_ITEM = b" %@:/?#"', 'UNSAFE_FOR_AUTH_ITEM = b" %:/?#"'),
+ ("m02-unsafe-auth-at", "C01", "ural/quote.py", 'UNSAFE_FOR_AUTH_ITEM = b" %@:/?#[]"', 'UNSAFE_FOR_AUTH_ITEM = b" %:/?#[]"'),
  ("m03-unsafe-query-amp", "C14", "ural/quote.py", 'UNSAFE_FOR_QUERY_ITEM = b" %&=#"', 'UNSAFE_FOR_QUERY_ITEM = b" %=#"'),
  ("m04-only-printable-dropped", "C14", "ural/quote.py", 'if only_printable and (b < b" " or b == b"\\x7f"):', 'if False:'),
  ("m05-errors-ignore", "C14", "ural/quote.py", '"utf-8", "ural_requote"', '"utf-8", "ignore"'),
@@ -36,7 +36,7 @@ M = [
  ("m27-query-pattern-unanchored-end", "C05", "ural/normalize_url.py", "|at_.+|_ga)$\"", "|at_.+|_ga)\""),
  ("m28-sort-key-value-ignored", "C04", "ural/normalize_url.py", 'return item[0], item[1] or "", 0 if item[1] is None else 1', 'return item[0]'),
  ("m29-index-only-html", "C04", "ural/normalize_url.py", '            if filename == "index" or filename == "default":', '            if last_segment == "index.html":'),
- ("m30-mistakes-no-ignorecase", "C04", "ural/utils.py", 'MISTAKES_RE = re.compile(r"&amp(?:%3B|;)", re.I)', 'MISTAKES_RE = re.compile(r"&amp(?:%3B|;)")'),
+ ("m30-mistakes-no-ignorecase", "C04", "ural/utils.py", 'MISTAKES_RE = re.compile(r"&(?:a|%[46]1)(?:m|%[46]D)(?:p|%[57]0)(?:%3B|;)", re.I)', 'MISTAKES_RE = re.compile(r"&(?:a|%[46]1)(?:m|%[46]D)(?:p|%[57]0)(?:%3B|;)")'),
  ("m31-no-resolve", "C04", "ural/normalize_url.py", "    if infer_redirection:\n        url = resolve(url)\n\n    url = CONTROL_CHARS_RE", "    url = CONTROL_CHARS_RE"),
  # C05
  ("m32-subdomain-word-boundary", "C05", "ural/normalize_url.py", 'IRRELEVANT_SUBDOMAIN_PATTERN = r"(?:^|(?<=\\.))', 'IRRELEVANT_SUBDOMAIN_PATTERN = r"\\b'),
@@ -47,14 +47,14 @@ M = [
  ("m37-fragment-guard-inverted", "C04", "ural/normalize_url.py", "        if strip_fragment is True or not should_strip_fragment(fragment):", "        if strip_fragment is True or should_strip_fragment(fragment):"),
  ("m38-auth-option-ignored", "C05", "ural/normalize_url.py", "    if strip_authentication:\n        user = None", "    if True:\n        user = None"),
  # C06
- ("m39-no-lower", "C06", "ural/fingerprint_url.py", "    url = url.lower()\n", "    pass\n"),
+ ("m39-no-lower", "C06", "ural/fingerprint_url.py", "    url = lowercase(url)\n\n    splitted = normalize_url(", "    splitted = normalize_url("),
  ("m40-port-kept", "C06", "ural/fingerprint_url.py", "    # Dropping port\n    port = None", "    # Dropping port\n    pass"),
  ("m41-iso-case-sensitive", "C06", "ural/fingerprint_url.py", "            if subdomain.upper() in ISO_3166_1_COUNTRIES_ALPHA_2:", "            if subdomain in ISO_3166_1_COUNTRIES_ALPHA_2:"),
  ("m42-label-count", "C06", "ural/fingerprint_url.py", '    if hostname.count(".") > 1:', '    if hostname.count(".") >= 1:'),
  ("m43-gl-hl-not-filtered", "C06", "ural/fingerprint_url.py", 'LANG_QUERY_KEYS = ("gl", "hl")', 'LANG_QUERY_KEYS = ("gl",)'),
- ("m44-suffix-before-lang", "C06", "ural/fingerprint_url.py", "        hostname = strip_lang_subdomains_from_hostname(hostname)\n\n        if strip_suffix:\n            # TODO: this is not performant because the code path reparses again\n            r = split_suffix(hostname)\n\n            if r is not None:\n                hostname, _ = r\n\n    # Dropping port", "        if strip_suffix:\n            r = split_suffix(hostname)\n\n            if r is not None:\n                hostname, _ = r\n\n        hostname = strip_lang_subdomains_from_hostname(hostname)\n\n    # Dropping port"),
+ ("m44-suffix-before-lang", "C06", "ural/fingerprint_url.py", "        hostname = strip_lang_subdomains_from_hostname(hostname)\n\n        if strip_suffix:\n            # TODO: this is not performant because the code path reparses again\n            r = split_suffix(hostname)\n\n            # NOTE: a hostname that is only a suffix (e.g. \"co.uk\", \"github.io\")\n            # is kept as is, lest the result has no host at all\n            if r is not None and r[0]:\n                hostname, _ = r\n\n    # Dropping port", "        if strip_suffix:\n            r = split_suffix(hostname)\n\n            if r is not None and r[0]:\n                hostname, _ = r\n\n        hostname = strip_lang_subdomains_from_hostname(hostname)\n\n    # Dropping port"),
  # C07
- ("m45-normalize-hostname-regex-drift", "C07", "ural/normalize_url.py", "    hostname = pattern.sub(\"\", hostname)\n\n    if normalize_amp and hostname.startswith(\"amp-\"):", "    hostname = pattern.sub(\"\", hostname, 1)\n\n    if normalize_amp and hostname.startswith(\"amp-\"):"),
+ ("m45-normalize-hostname-regex-drift", "C07", "ural/normalize_url.py", "    hostname = pattern.sub(\"\", hostname) or hostname\n\n    if normalize_amp and hostname.startswith(\"amp-\"):", "    hostname = pattern.sub(\"\", hostname, 1) or hostname\n\n    if normalize_amp and hostname.startswith(\"amp-\"):"),
  ("m46-stems-from-raw-url", "C07", "ural/lru/stems.py", "    parsed_url = normalize_url(url, unsplit=False, **kwargs)", "    parsed_url = normalize_url(url, unsplit=False)"),
  ("m47-suffix-aware-not-forwarded", "C07", "ural/lru/stems.py", "    parsed_url = fingerprint_url(url, unsplit=False, **kwargs)\n    return lru_stems_from_parsed_url(parsed_url, suffix_aware=suffix_aware)", "    parsed_url = fingerprint_url(url, unsplit=False, **kwargs)\n    return lru_stems_from_parsed_url(parsed_url)"),
  ("m48-get-hostname-no-scheme", "C07", "ural/get_hostname.py", "        return safe_urlsplit(url).hostname or None", "        from ural.utils import urlsplit\n        return urlsplit(url).hostname or None"),
@@ -94,7 +94,7 @@ M = [
  ("m76-query-before-path", "C13", "ural/lru/stems.py", '    # Path\n    for element in path.split("/")[1:]:\n        lru.append("p:" + element)\n\n    # Query\n    if query and query[0]:\n        lru.append("q:" + query)\n', '    # Query\n    if query and query[0]:\n        lru.append("q:" + query)\n\n    # Path\n    for element in path.split("/")[1:]:\n        lru.append("p:" + element)\n'),
  # C15
  ("m77-length-guard-dropped", "C15", "ural/infer_redirection.py", "    if target is None or len(target) >= len(url):", "    if target is None:"),
- ("m78-recursive-not-propagated", "C15", "ural/infer_redirection.py", "        return infer_redirection(target, recursive=True)", "        return infer_redirection(target, recursive=False)"),
+ ("m78-recursive-not-propagated", "C15", "ural/infer_redirection.py", "        url = target\n\n\ndef infer_redirection_once", "        return infer_redirection_once(target)\n\n\ndef infer_redirection_once"),
  ("m79-unquote-twice", "C15", "ural/infer_redirection.py", "            potential_target = unquote(obvious_redirect_match.group(2))", "            potential_target = unquote(unquote(obvious_redirect_match.group(2)))"),
  ("m80-urljoin-swapped", "C15", "ural/infer_redirection.py", "                target = urljoin(url, potential_target)", "                target = urljoin(potential_target, url)"),
  ("m81-regex-no-anchor", "C15", "ural/patterns.py", 'QUERY_VALUE_IN_URL_TEMPLATE = r"(?:^|[?&])(%s)=([^&]+)"', 'QUERY_VALUE_IN_URL_TEMPLATE = r"(%s)=([^&]+)"'),
